@@ -519,6 +519,14 @@ func (w *zzvRWorld) holdAll() {
 	}
 }
 
+func (w *zzvRWorld) burn(a, p string) {
+	c := w.agent(a).peerMgr.GetPeer(w.m.ID(p))
+	if c == nil {
+		w.t.Fatalf("relay: burn: %s has no connection to %s", a, p)
+	}
+	c.NextStreamID()
+}
+
 func (w *zzvRWorld) dir(from, to string) *zzvDir {
 	return w.m.Net.LinkBetween(from, to).Dir(from)
 }
@@ -1135,6 +1143,7 @@ type zzvRPathStep struct {
 
 type zzvRIn struct {
 	Name     string            `json:"name"`
+	Burn     [][]string        `json:"burn"` // [[agent, peer], ...]: stream ids used up before the path starts
 	Topo     string            `json:"topo"`
 	Variant  string            `json:"variant"`
 	Kinds    map[string]string `json:"kinds"` // tunnel id -> kind
@@ -1183,7 +1192,14 @@ func zzvRelayReplayJob(t *testing.T, ji int, in *zzvRIn) {
 	steps, mism := 0, 0
 	t0 := time.Now()
 	for pi, path := range in.Paths {
+		if mism >= 8 {
+			zzvEmit("truncated", map[string]any{"job": ji, "name": in.Name, "after_paths": pi})
+			break
+		}
 		w := zzvNewRelayWorld(t, in.Topo, in.Variant, kinds, 0)
+		for _, b := range in.Burn {
+			w.burn(b[0], b[1])
+		}
 		w.holdAll()
 		if d, got := w.settle(w.specProj(st(path.Init)), patience); d != "" {
 			t.Fatalf("relay: initial state of the mesh differs from the spec: %s (%s)", d, zzvJSON(got))
@@ -1526,7 +1542,7 @@ func TestZZVRelayScenario(t *testing.T) {
 		Scenarios []zzvScenario `json:"scenarios"`
 		WaitMs    int           `json:"wait_ms"`
 	}
-	zzvLoad(t, "ZZV_IN", &in)
+	zzvLoad(t, "ZZV_SC", &in)
 	wait := time.Duration(in.WaitMs) * time.Millisecond
 	if wait == 0 {
 		wait = 2500 * time.Millisecond
@@ -1763,6 +1779,10 @@ func TestZZVRelayScenario(t *testing.T) {
 						exp[id].broken = true
 					}
 				}
+			case "burn":
+				// one stream id of agent A's connection to P is used up: from here on the ids of the two hops of a
+				// relayed tunnel differ (no collision involved)
+				w.burn(op.A, op.P)
 			case "wait":
 				time.Sleep(time.Duration(op.Ms) * time.Millisecond)
 			}
